@@ -96,10 +96,7 @@ contract(f"{C}::Calibrator.check_convergence",
          ghost_ensures=["ghost.conv_seen == (old(ghost.conv_seen) or result)"],
          modifies=["ghost.conv_seen"])
 
-contract(f"{C}::Calibrator.create_checkpoint", params={"file_name": "any"}, trusted=True, props=["C14", "C04"],
-         ghost_ensures=["ghost.saved_index == self.current_batch_index", "ghost.saved_n == self.n_sampled_params"],
-         modifies=["ghost.saved_index", "ghost.saved_n"],
-         notes="ASSUMED effect summary: writes the current state to the folder (its content is decided in C04/C06)")
+# Calibrator.create_checkpoint: contract in c04_checkpoint.py (verified against save_calibrator_state's contract)
 
 _M = "self.current_batch_index - old(self.current_batch_index)"
 # "the smallest loss found so far rounds to zero at p decimals" / its negation, over the WHOLE recorded history
